@@ -1,15 +1,233 @@
-"""C09 — solver stream (see rv/solverstream.py)."""
-from rv import solverstream as SS
+"""C09 — Every run ends in a solution or an honest, located failure."""
+from __future__ import annotations
 
-RULE = ("random package universes (<= 6 projects x <= 3 versions x <= 3 requirements; shapes: acyclic conflict-free, acyclic with "
-        "conflicts, cyclic, self-referential, extras-heavy; spelling variants; unpinned and fully pinned constraint files) solved by "
-        "the real perform_compile over an in-memory repository and by the Lean solver model; outcome class, full graph, roots and "
-        "NoCandidate requirement are compared; non-trivial = any invalidation, walk-back, constraint file or failure outcome")
+import contextlib
+import io
+import os
+import re
+import shutil
+import tempfile
+
+from rv.core import Stream
+from rv import graphlib as GL
+from rv import solverstream as SS
+from rv import backends as B
+
+RULE = ("(1) compile: random package universes (<= 6 projects x <= 3 versions x <= 3 requirements; shapes: acyclic conflict-free, acyclic with "
+        "conflicts, cyclic, self-referential, extras-heavy, two hand-shaped families; spelling variants; unpinned and fully pinned constraint "
+        "files) solved by the real perform_compile over an in-memory repository and by the Lean solver model; outcome class, full graph, "
+        "roots and NoCandidate requirement are compared; (2) cli-failures: universes biased towards failure (requirements on projects that do "
+        "not exist, bounds no version meets, conflicts between requirers, corrupt wheels) materialised as wheels in a find-links directory and "
+        "compiled by the real command line in-process: exit status, absence of a traceback, the kind of diagnostic, the requirement it names "
+        "and every printed requirement chain are checked against the universe; non-trivial = hits a flag")
 ASSUMPTIONS = [
     "the repository is the trivial instance of the C03 model (every offered version readable, installable, final)",
     "versions.is_possible verdicts for the merged label pairs of each run and set iteration orders are read off the real run",
 ]
 
+HEADERS = {
+    "impossible": re.compile(r"^No version of (\S+) could possibly satisfy the following requirements \((.*)\):$"),
+    "absent": re.compile(r"^No candidates found for (\S+) in any of the input sources\. Required by:$"),
+    "unworkable": re.compile(r"^No working candidates found for (\S+)\. Required by:$"),
+    "unsatisfied": re.compile(r"^No version of (\S+) could satisfy the following requirements \((.*)\):$"),
+    "metadata": re.compile(r"^A problem occurred while determining requirements for (\S+):$"),
+}
+
+
+def run_cli(d, files, extra=()):
+    import functools
+    import req_compile.cmdline as C
+    out, err = io.StringIO(), io.StringIO()
+    old = os.getcwd()
+    os.chdir(d)
+    orig_write = C.write_requirements_file
+    C.write_requirements_file = functools.partial(orig_write, write_to=out)
+    code, exc = 0, None
+    try:
+        with contextlib.redirect_stdout(out), contextlib.redirect_stderr(err):
+            try:
+                C.compile_main(list(files) + ["--find-links", "links", "--no-index"] + list(extra))
+            except SystemExit as ex:
+                code = ex.code if isinstance(ex.code, int) else 1
+            except BaseException as ex:   # a traceback for the user
+                code, exc = 1, type(ex).__name__
+    finally:
+        C.write_requirements_file = orig_write
+        os.chdir(old)
+    return {"code": code, "exception": exc, "stdout": out.getvalue(), "stderr": err.getvalue()}
+
+
+class CliFailures(Stream):
+    name = "cli-failures"
+    quick_n = 250
+    thorough_n = 12000
+    batch = 50
+
+    def setup(self):
+        self.tmp = tempfile.mkdtemp(prefix="rvc09")
+
+    def teardown(self):
+        shutil.rmtree(getattr(self, "tmp", ""), ignore_errors=True)
+
+    def generate(self, rng):
+        case = SS.gen_universe(rng, rng.choice(["dag-conflict", "dag-conflict", "dag-free", "extras", "cyclic", "late-extra-cycle"]))
+        case["constraints"] = []
+        names = list(case["universe"])
+        # push towards failure: an absent project, an unmeetable bound, a corrupt file
+        k = rng.random()
+        case["corrupt"] = []
+        if k < 0.3:
+            n = rng.choice(names)
+            v = rng.choice(sorted(case["universe"][n]))
+            case["universe"][n][v] = case["universe"][n][v] + [rng.choice(["ghost", "ghost>=1", "Ghost.Pkg[x]"])]
+        elif k < 0.5:
+            n = rng.choice(names)
+            case["inputs"][0].append(rng.choice(SS.SPELL[n]) + rng.choice([">9", "==9.9", "<0.1", ">=2.0,<1.0"]))
+        elif k < 0.6:
+            n = rng.choice(names)
+            case["corrupt"] = [[n, v] for v in case["universe"][n]]
+        return case
+
+    def impl(self, case):
+        from rv.core import digest
+        from rv.props.c07 import materialise, write_inputs
+        GL.reset_caches()
+        d = os.path.join(self.tmp, digest(case))
+        shutil.rmtree(d, ignore_errors=True)
+        os.makedirs(d)
+        materialise(case, d)
+        for n, v in case["corrupt"]:
+            with open(os.path.join(d, "links", B.wheel_name(n, v)), "wb") as f:
+                f.write(b"PK\x03\x04 this is not a wheel")
+        files = write_inputs(d, case["inputs"])
+        r = run_cli(d, files)
+        shutil.rmtree(d, ignore_errors=True)
+        # the same universe through the in-memory repository, for the region
+        run = SS.Run(dict(case, universe={n: vs for n, vs in case["universe"].items()}))
+        r["region"] = run.region()
+        r["mem_outcome"] = run.outcome
+        return r
+
+    def flags(self, case, r):
+        fl = ["exit:%s" % r["code"], "region:" + r["region"]]
+        for kind, rx in HEADERS.items():
+            if any(rx.match(l) for l in r["stderr"].splitlines()):
+                fl.append("diagnostic:" + kind)
+        if case["corrupt"]:
+            fl.append("corrupt-wheel")
+        if r["exception"]:
+            fl.append("traceback:" + r["exception"])
+        return fl
+
+    @staticmethod
+    def _versions(case, key):
+        out = []
+        for n, vs in case["universe"].items():
+            if GL.norm(n) == key:
+                out += [v for v in vs if [n, v] not in case["corrupt"]]
+        return out
+
+    @staticmethod
+    def _requires(case, name, version):
+        """declared requirements of a distribution / an input file"""
+        m = re.match(r"^in(\d+)\.txt$", name)
+        if m:
+            return [GL.P(t) for t in case["inputs"][int(m.group(1))]]
+        for n, vs in case["universe"].items():
+            if GL.norm(n) == GL.norm(name):
+                for v, reqs in vs.items():
+                    if version is None or str(GL.V(v)) == version:
+                        return [GL.P(t) for t in reqs]
+        return None
+
+    def oracle(self, case, r):
+        from packaging.specifiers import SpecifierSet
+        region = r["region"]
+        fails = []
+        if r["exception"]:
+            return [("C09/cli-traceback-%s/%s" % (r["exception"], region), {"stderr": r["stderr"][-400:]})]
+        if r["code"] == 0:
+            return []
+        if r["code"] != 1:
+            return [("C09/cli-exit-status-%s/%s" % (r["code"], region), {"stderr": r["stderr"][-300:]})]
+        lines = r["stderr"].splitlines()
+        head = None
+        for i, l in enumerate(lines):
+            for kind, rx in HEADERS.items():
+                m = rx.match(l)
+                if m:
+                    head = (kind, m, i)
+                    break
+            if head:
+                break
+        if head is None:
+            return [("C09/failure-without-diagnostic/" + region, {"stderr": r["stderr"][-400:]})]
+        kind, m, at = head
+        key = GL.norm(m.group(1))
+        offered = self._versions(case, key)
+        if kind == "absent" and offered:
+            fails.append(("C09/says-absent-but-offered/" + region, {"project": key, "offered": offered}))
+        if kind in ("unsatisfied", "impossible"):
+            try:
+                spec = GL.P(m.group(2)).specifier
+            except Exception:
+                spec = None
+            if spec is not None:
+                ok = [v for v in offered if spec.contains(str(GL.V(v)), prereleases=True)]
+                if ok:
+                    fails.append(("C09/named-requirement-is-satisfiable/" + region, {"requirement": m.group(2), "satisfying": ok}))
+                if kind == "impossible":
+                    grid = ["%d.%d" % (a, b) for a in range(0, 12) for b in (0, 1, 5, 9)] + ["0.0.1", "9.9", "1.5.1", "2.0.post1", "3.0.1"]
+                    could = [g for g in grid if spec.contains(g, prereleases=True)]
+                    if could:
+                        fails.append(("C09/called-impossible-but-a-version-could-satisfy/" + region, {"requirement": m.group(2), "for example": could[:3]}))
+        # chains
+        for l in lines[at + 1:]:
+            if not l.startswith("  ") or " -> " not in l:
+                if l.startswith("Found the following candidates"):
+                    break
+                continue
+            parts = [p.strip() for p in l.strip().split(" -> ")]
+            steps, last = parts[:-1], parts[-1]
+            prev = None
+            bad = None
+            for s in steps:
+                mm = re.match(r"^([^\s\[]+)(\[[^\]]*\])?(?: (\S+))?$", s)
+                if not mm:
+                    bad = "unparsable step %r" % s
+                    break
+                name, ver = mm.group(1), mm.group(3)
+                if prev is None:
+                    if not re.match(r"^in\d+\.txt$", name):
+                        bad = "chain does not start at an input (%s)" % name
+                        break
+                else:
+                    reqs = self._requires(case, prev[0], prev[1])
+                    if reqs is None or not any(GL.norm(q.name) == GL.norm(name) for q in reqs):
+                        bad = "%s %s does not require %s" % (prev[0], prev[1], name)
+                        break
+                prev = (name, ver)
+            if bad is None and prev is not None:
+                reqs = self._requires(case, prev[0], prev[1])
+                try:
+                    lastq = GL.P(last)
+                except Exception:
+                    lastq = None
+                if reqs is None or lastq is None or not any(GL.norm(q.name) == GL.norm(lastq.name) for q in reqs):
+                    bad = "%s %s does not state %s" % (prev[0], prev[1], last)
+                elif GL.norm(lastq.name) != key:
+                    bad = "chain ends at %s, the failure names %s" % (lastq.name, key)
+            if bad:
+                fails.append(("C09/chain-not-real/" + region, {"line": l, "why": bad}))
+        return fails
+
+    def shrink(self, case):
+        from rv.props.c07 import CliVariants
+        if case["corrupt"]:
+            yield dict(case, corrupt=[])
+        for c in CliVariants.shrink(self, case):
+            yield c
+
 
 def streams():
-    return [SS.CompileStream("C09")]
+    return [SS.CompileStream("C09"), CliFailures()]
